@@ -1,27 +1,29 @@
 /-
-C17 — the full-strength statement (★) of `P3R.Props.C17` is false of the current code.
+C17 — records and regression witnesses for the tree with F10 and F10b repaired.
 
-Finding F10 (aggregation cache). Two verification circuits with the same four counters and
-different wiring. The replayed real case (`corpus/c17/f10_*.json`) aggregates two proofs of the
-AIR `x·x − z` and then, with the same cache variable, two proofs of the AIR `x·y − z`; the two
-verification circuits differ exactly in one ALU operand. The Lean witness has the same shape,
-reduced to the differing constraint: publics `x y z`, `z = x·x` versus `z = x·y`.
-The preprocessed ALU row of the model of `generate_preprocessed_columns` (`P3R.genPrep`,
-tied to the Rust by the C09 and C17 correspondence runs) carries the operand indices, so the
-preparation data differ while the fingerprints are equal.
+Record of the old behaviour (findings F10, F10b, both repaired): the cache key used to be the
+four counters alone, and `prove_next_layer` compared nothing. The circuits below are the
+witness that was replayed against the old code (`corpus/c17/f10_*.json`, `f10b_*.json`: AIRs
+`x·x − z` and `x·y − z`; here reduced to the differing constraint on publics `x y z`).
+Nothing in this file negates a statement of `P3R.Props.C17` about the current model:
 
-Finding F18 (next-layer cache). `prove_next_layer` uses a caller-supplied
-`NextLayerPrepCache` without comparing anything.
-
-Observation (not a finding): the key does not read `ProveNextLayerParams`; a hit after a change
-of params proves with the stored params (`params_stale`). The proof carries its own packing, so
-it still verifies.
+* `counters_not_injective` — a fact about the four counters (why a digest was added);
+* `counters_only_key_insufficient`, `constant_digest_insufficient` — the current state machine
+  instantiated with a key that does not separate the two circuits uses stale data: the
+  assumption `DigestInjOn` of `cache_refines_uncached_digest` cannot be dropped;
+* `witness_now_recomputed`, `witness_next_now_refused` — with a digest that separates the two
+  structures the replayed histories now recompute / are refused (regression form of the
+  repaired findings);
+* `witness_satisfies_digest_hypothesis` — non-vacuity of `DigestInjOn` on the witness;
+* `params_stale` — observation, unchanged by the repair: params are not part of the key, a hit
+  after a change of params proves with the stored params (the proof records its packing and
+  verifies).
 -/
 import P3R.Model.Cache
 import P3R.Props.C17
 
 namespace P3R.Witness.C17
-open P3R P3R.Cache
+open P3R P3R.Cache P3R.C17
 
 /-- `z = x·x` on publics `x y z` (slots 0 1 2): what `connect(mul(x,x), z)` compiles to. -/
 def cXX : Circuit Nat :=
@@ -33,85 +35,112 @@ def cXY : Circuit Nat :=
   { witnessCount := 3, ops := #[.pub 0 0, .pub 1 1, .pub 2 2, .mul 0 1 2],
     pubRows := #[0, 1, 2], privRows := #[], e2w := #[], rewrite := [] }
 
-/-- The preparation data of a circuit, as far as the primitive tables go: Const indices,
-Public indices, ALU rows (kind, operand indices, roles). -/
-def prepData (c : Circuit Nat) : Option (List Nat × List Nat × List AluPrep) :=
-  (genPrep c).map fun p => (p.consts, p.pubs, p.alu)
-
-/-- **The four-counter fingerprint is not injective**: equal fingerprints, different
-preprocessed columns. -/
-theorem fingerprint_not_injective :
+/-- The four counters do not determine the preprocessed columns. -/
+theorem counters_not_injective :
     fingerprint cXX = fingerprint cXY ∧ prepData cXX ≠ prepData cXY := by
   constructor
   · decide
   · decide +kernel
 
-/-- The history of the replayed case: one cache variable, first call on `cXX`, second on `cXY`. -/
-def history : List (Step (Circuit Nat)) := [.agg cXX (some 0), .agg cXY (some 0)]
+/-- The structures differ (so any collision-free digest separates them). -/
+theorem structures_differ : structureOf cXX ≠ structureOf cXY := by decide +kernel
 
-/-- The second call hits and proves with the data prepared for `cXX`. -/
-theorem second_call_uses_stale :
-    ((run fingerprint [] history).2.map fun o => (o.hit, prepData o.used)) =
-      [(false, prepData cXX), (true, prepData cXX)] := by
+/-- The replayed aggregation history: one cache variable, first `cXX`, then `cXY`. -/
+def history : List (Step (Circuit Nat × Nat)) := [.agg (cXX, 0) (some 0), .agg (cXY, 0) (some 0)]
+
+/-- A digest that identifies a structure by its ALU operand lists (enough to separate the
+witness circuits; any injective digest would do). -/
+def dgOps (st : Structure Nat) : List (Nat × Nat) :=
+  st.1.filterMap fun
+    | .alu _ a b _ _ _ => some (a, b)
+    | _ => none
+
+/-- **Regression form of F10**: with the extended fingerprint the second call misses,
+recomputes for its own circuit, and the variable then holds the second circuit. -/
+theorem witness_now_recomputed :
+    ((run (fun j : Circuit Nat × Nat => fingerprintX dgOps j.1) [] history).2.map fun o =>
+        (o.hit, o.used.map fun u =>
+          (decide (prepData u.1 = prepData cXX), decide (prepData u.1 = prepData cXY)))) =
+      [(false, some (true, false)), (false, some (false, true))] := by
   decide +kernel
 
-/-- **Negation of the full statement (★)** for the aggregation cache: from empty cache
-variables (`SlotsWF` holds trivially) there is a history on which a call proves with data that
-is not the preparation of its own circuit. -/
-theorem cache_full_statement_false :
-    ¬ ∀ (h : List (Step (Circuit Nat))),
-        ((run fingerprint [] h).2.map fun o => prepData o.used) = (uncached h).map prepData := by
-  intro hall
-  have h := hall history
-  rw [show ((run fingerprint [] history).2.map fun o => prepData o.used) =
-      [prepData cXX, prepData cXX] by decide +kernel] at h
-  have h2 : prepData cXX = prepData cXY := by
-    simp only [uncached, history, List.map_cons, List.map_nil, Step.job] at h
-    injection h with _ h
-    injection h
-  exact fingerprint_not_injective.2 h2
+/-- **Regression form of F10b**: a preparation built for `cXX` handed to `prove_next_layer` on
+`cXY` is refused; one built for `cXY` is used. -/
+theorem witness_next_now_refused :
+    ((run (fun j : Circuit Nat × Nat => fingerprintX dgOps j.1) []
+        [.next (cXY, 0) (some (cXX, 0)), .next (cXY, 0) (some (cXY, 0))]).2.map fun o =>
+        (o.hit, o.used.isSome)) = [(false, false), (true, true)] := by
+  decide +kernel
 
-/-- The witness falsifies hypothesis `KeyDeterminesPrep` of `cache_refines_uncached_partial`
-(and nothing else: no `next` step, empty initial cache). -/
-theorem witness_falsifies_key_hypothesis :
-    ¬ P3R.C17.KeyDeterminesPrep fingerprint prepData
-        (P3R.C17.slotJobs ([] : Slots Fingerprint (Circuit Nat)) ++ uncached history) := by
+/-- `DigestInjOn` holds for `dgOps` on the circuits of the witness history. -/
+theorem witness_satisfies_digest_hypothesis :
+    DigestInjOn dgOps (slotJobs ([] : Slots (FingerprintX (List (Nat × Nat))) (Circuit Nat × Nat)) ++
+      mentioned history) := by
+  intro j j' hj hj' h
+  simp only [slotJobs, mentioned, history, Step.mentioned, List.map_nil, List.nil_append,
+    List.flatMap_cons, List.flatMap_nil, List.append_nil, List.cons_append, List.mem_cons,
+    List.not_mem_nil, or_false] at hj hj'
+  rcases hj with rfl | rfl <;> rcases hj' with rfl | rfl
+  · rfl
+  · exact absurd h (by decide +kernel)
+  · exact absurd h (by decide +kernel)
+  · rfl
+
+/-- Why the counters alone were not enough (record of F10): the *current* state machine with a
+key that reads the counters only proves the second call with the first circuit's data. -/
+theorem counters_only_key_insufficient :
+    ((run (fun j : Circuit Nat × Nat => fingerprint j.1) [] history).2.map fun o =>
+        (o.hit, o.used.map fun u =>
+          (decide (prepData u.1 = prepData cXX), decide (prepData u.1 = prepData cXY)))) =
+      [(false, some (true, false)), (true, some (true, false))] := by
+  decide +kernel
+
+/-- Boolean form of `Good` for the concrete preparation data. -/
+def goodB (st : Step (Circuit Nat × Nat)) (o : StepOut (Circuit Nat × Nat)) : Bool :=
+  match o.used with
+  | none => true
+  | some u => decide (prepData u.1 = prepData st.job.1)
+
+theorem forall₂_zipWith_all {α β : Type} {R : α → β → Prop} (f : α → β → Bool)
+    (hf : ∀ a b, R a b → f a b = true) {l : List α} {m : List β} (h : List.Forall₂ R l m) :
+    (List.zipWith f l m).all id = true := by
+  induction h with
+  | nil => rfl
+  | cons hh _ ih => simp [List.zipWith, hf _ _ hh, ih]
+
+/-- The assumption `DigestInjOn` of `cache_refines_uncached_digest` cannot be dropped: with a
+digest that collides on the two structures (here: constant), the conclusion fails. -/
+theorem constant_digest_insufficient :
+    ¬ List.Forall₂ (Good (fun j : Circuit Nat × Nat => prepData j.1)) history
+        (run (fun j : Circuit Nat × Nat => fingerprintX (fun _ => ()) j.1) [] history).2 := by
   intro h
-  apply fingerprint_not_injective.2
-  apply h cXX cXY
-  · simp [uncached, history, Step.job, P3R.C17.slotJobs]
-  · simp [uncached, history, Step.job, P3R.C17.slotJobs]
-  · exact fingerprint_not_injective.1
-
-/-- **Negation of (★) for `prove_next_layer`**: whatever the key, a caller-supplied
-preparation is used as is. There is nothing to compare, so no hypothesis on the key helps;
-what is falsified is `CallerPrepsMatch`. -/
-theorem next_layer_full_statement_false :
-    ¬ ∀ (h : List (Step (Circuit Nat))),
-        ((run fingerprint [] h).2.map fun o => prepData o.used) = (uncached h).map prepData := by
-  intro hall
-  have h := hall [.next cXY (some cXX)]
-  have h2 : prepData cXX = prepData cXY := by
-    simp only [run, step, uncached, List.map_cons, List.map_nil, Step.job] at h
-    injection h
-  exact fingerprint_not_injective.2 h2
-
-/-- The same for an arbitrary key and arbitrary jobs: `prove_next_layer` never refuses. -/
-theorem next_layer_never_refuses {F J : Type} [DecidableEq F] (key : J → F) (s : Slots F J)
-    (job j' : J) : step key s (.next job (some j')) = (s, ⟨true, j'⟩) := rfl
+  have hall := forall₂_zipWith_all goodB (fun st o hg => by
+    unfold Good at hg
+    unfold goodB
+    cases hu : o.used with
+    | none => rfl
+    | some u => rw [hu] at hg; simpa using hg) h
+  have : (List.zipWith goodB history
+      (run (fun j : Circuit Nat × Nat => fingerprintX (fun _ => ()) j.1) [] history).2).all id
+      = false := by decide +kernel
+  rw [this] at hall
+  cases hall
 
 /-- Params are not part of the key: same circuit, changed params, one cache variable — the
 second call proves with the params of the first. -/
 theorem params_stale :
-    (run (fun j : Circuit Nat × Nat => fingerprint j.1) []
-        [.agg (cXX, 1) (some 0), .agg (cXX, 2) (some 0)]).2.map (fun o => (o.hit, o.used.2)) =
-      [(false, 1), (true, 1)] := by
+    (run (fun j : Circuit Nat × Nat => fingerprintX dgOps j.1) []
+        [.agg (cXX, 1) (some 0), .agg (cXX, 2) (some 0)]).2.map
+        (fun o => (o.hit, o.used.map Prod.snd)) =
+      [(false, some 1), (true, some 1)] := by
   decide +kernel
 
 end P3R.Witness.C17
 
-#print axioms P3R.Witness.C17.fingerprint_not_injective
-#print axioms P3R.Witness.C17.cache_full_statement_false
-#print axioms P3R.Witness.C17.witness_falsifies_key_hypothesis
-#print axioms P3R.Witness.C17.next_layer_full_statement_false
+#print axioms P3R.Witness.C17.counters_not_injective
+#print axioms P3R.Witness.C17.witness_now_recomputed
+#print axioms P3R.Witness.C17.witness_next_now_refused
+#print axioms P3R.Witness.C17.witness_satisfies_digest_hypothesis
+#print axioms P3R.Witness.C17.counters_only_key_insufficient
+#print axioms P3R.Witness.C17.constant_digest_insufficient
 #print axioms P3R.Witness.C17.params_stale
